@@ -502,6 +502,29 @@ def check_executor_loops(rep, core, rid='R01.e'):
             rep.expect(rid, n_sp >= 1 and ok_sp, 'run_all-flag-after-spawned',
                        'after running a newly spawned task, run_all returns only after finding both queues empty again',
                        'run_all can run a newly spawned task and return without looking at both queues again')
+            # a task that is out of its slot (another thread is polling it) keeps its wake-up: on the Unavailable result the id is put
+            # back on the ready queue on every path before run_all reads a queue again or returns
+            requeue_ok = True
+            n_un = 0
+            for rb, rt in runs:
+                res = rt['d']['l']
+                sw = [(bb, t) for bb, t in f.terms('switch') if any(
+                    o.kind == 'rvalue' and o.stmt['rv']['k'] == 'discr' and o.stmt['rv']['a']['l'] == res for o in origins(f, t['a']))]
+                if not sw or 'Unavailable' not in names:
+                    continue
+                n_un += 1
+                sbb, st = sw[0]
+                tgt = next((b_ for v, b_ in st['arms'] if v == names['Unavailable']), st['otherwise'])
+                resends = [bb for bb, t in f.calls('crossbeam_channel::channel::Sender::send') if 'ready_sender' in field_of_receiver(f, t['args'][0]) and
+                           all(o.kind == 'call' and o.bb in ready_r for o in origins(f, t['args'][1], extra_identity=[('core::ops::deref::Deref::deref', 0)])
+                               if o.kind == 'call')]
+                stops = set(spawn_r + ready_r + rets)
+                if not resends or (stops & f.reachable_ps([tgt], removed_blocks=resends)):
+                    requeue_ok = False
+            rep.expect(rid, n_un >= 1 and requeue_ok, 'run_all-requeues-unavailable',
+                       'on Unavailable the task id goes back on the ready queue before the next queue read or the return',
+                       'run_all can drop the wake-up of a task that another thread is polling: on the Unavailable result the id is not put back '
+                       'on the ready queue on every path (nobody will poll that task for this wake-up)')
             rep.expect(rid, n_rd >= 1 and ok_rd, 'run_all-flag-after-ready',
                        'after a woken task ran (Suspended / Completed), run_all returns only after finding both queues empty again',
                        'run_all: a task that ran (Suspended/Completed) does not force another look at both queues, so the loop may exit with work queued')
@@ -549,6 +572,9 @@ def check(ctx, rep):
     # eviction test discards the task and everything it would still have requested) — shared with C05 R05.c / C07 R07.d
     rep.rule('R01.g', 'every future crux provides keeps the current poll\'s waker when it stays Pending (a task that loses it is evicted and its later effects are lost)', floor=5)
     c05.check_pending_wakers(rep, 'R01.g', core, ctx.crate('default', 'crux_time'))
+    # R01.j: no wake-up is lost on its way to the ready queue, however the waker is invoked (shared with C05 R05.b)
+    rep.rule('R01.j', 'every way of waking a task waker enqueues the task, marks it woken and wakes the parent, on every path', floor=5)
+    c05.check_wake_impls(rep, 'R01.j', core, ctx.crate('default', 'crux_time'))
     # R01.i: a task parked on a JoinHandle is woken whenever the joined task leaves the command, or everything it would still request is lost
     rep.rule('R01.i', 'every task that leaves a command — finished, aborted or evicted — publishes `finished` and wakes its join handles', floor=2)
     c07.check_finish_notify(rep, 'R01.i', core)
